@@ -58,6 +58,10 @@ func TestC10(t *testing.T) {
 			out.emit(tag+"-reuse", "c10", []string{ty.Sexp(), hexBytes(d)}, c10ObsInto(ty, d, reuseGen.val(ty)))
 		}
 	}
+	// one list of thousands of variable-size elements (offset tables of 16 KiB and more)
+	for _, d := range manyElemCases() {
+		out.emit("many", "c10", []string{d.ty.Sexp(), hexBytes(d.data)}, c10Obs(d.ty, d.data))
+	}
 	// inputs of 2^32 bytes and more (see huge_test.go)
 	hugeCases(1011, true, func(tag string, ty *Ty, h *hugeInput) {
 		if !ty.IsFixed() {
